@@ -2492,7 +2492,8 @@ class SchemaValidator:
             ref_field = "id"
 
         for item in collection:
-            if ref_field not in item:
+            # e.g. the keys of the imported schemas, for a reference of kind "schema"
+            if not isinstance(item, dict) or ref_field not in item:
                 continue
 
             if str(item[ref_field]) == ref_id:
@@ -2714,7 +2715,7 @@ class SchemaValidator:
                                 obj_spec, field_name
                             ):
                                 # two spellings of one reference are the same value
-                                value = self._normalize_ref(value)
+                                value = self._normalize_ref_keep_path(value)
 
                             unique_values[value] = value not in unique_values
                     elif is_path(field_name):
@@ -2756,7 +2757,25 @@ class SchemaValidator:
             return False
 
         prop_spec = values_spec["properties"][field_name]
-        return isinstance(prop_spec, dict) and prop_spec.get("type") == "ref"
+        if not isinstance(prop_spec, dict):
+            return False
+
+        # either a reference, or one of several types of which one is a reference
+        return prop_spec.get("type") == "ref" or any(
+            isinstance(allowed, dict) and allowed.get("type") == "ref"
+            for allowed in prop_spec.get("types", [])
+        )
+
+    def _normalize_ref_keep_path(self, ref):
+        """Like _normalize_ref, but an attribute path that follows the entity reference is kept."""
+        if not is_global_ref(ref):
+            return ref
+
+        entity_ref = utils.reduce_ref(ref)
+        if not ref.startswith(entity_ref):
+            return ref
+
+        return self._normalize_ref(entity_ref) + ref[len(entity_ref) :]
 
     def _get_field(
         self,
